@@ -7,7 +7,7 @@ from props.c01 import RULE
 
 def run(ck: Check):
     ex = Explorer(ck, oracles=[oracle_c12])
-    driver_universe(ex, ck, aborts=False)
+    driver_universe(ex, ck, aborts=True)   # a test that raises ends the run there: numbering / count up to that point
     extra(ex, ck)
     # the directory stays a log across runs on one Lithium object sharing it (C12_session_log / _no_overwrite): the
     # check that an earlier run's numbered files survive a later run is part of session_universe itself
